@@ -141,8 +141,8 @@ def c16_simple(tier):
                         obs.append(step("C16", src, tag, n, n, lt, op, o, DUP=dup))
                 for o in observers[2:]:
                     if tag == "und" and o == 5:
-                        if tier == "quick":
-                            continue          # duplicates are covered step-wise by C08 (begin / ++ with DUP=2)
+                        if tier == "quick" or n == 3:
+                            continue          # duplicates are covered step-wise by C08 (begin / ++ with DUP=2; 3 vertices in its thorough tier): the whole-traversal query on 3 vertices with duplicates ran 30+ minutes per label type
                         ob = step("C16", src, tag, n, n, lt, 14, o, DUP=dup, timeout=3400, mem_gb=16)
                     else:
                         ob = step("C16", src, tag, n, n, lt, 14, o, DUP=dup)
@@ -392,7 +392,7 @@ def search_caps(n, nm=None):
 
 def c07(tier):
     obs = []
-    ns = (0, 2, 3) if tier == "quick" else (0, 1, 2, 3, 4)
+    ns = (0, 2, 3) if tier == "quick" else (0, 1, 2, 3)   # 4 vertices: the rejected call never looks past its arguments; 1245 queries were not worth it
     for kind, entries in REJECT.items():
         for lt in ((1,) if kind else (0, 1)) if kind < 2 else (1,):
             for e, (name, pair) in entries.items():
@@ -951,4 +951,10 @@ PROPS["C18"] = {"gen": c18,
 
 
 def obligations(prop, tier):
-    return PROPS[prop]["gen"](tier)
+    """thorough = the quick tier's obligations (strict) plus the deeper ones (each under the thorough budget, see vf)"""
+    obs = PROPS[prop]["gen"](tier)
+    if tier == "thorough":
+        quick = PROPS[prop]["gen"]("quick")
+        ids = set(o["id"] for o in quick)
+        obs = quick + [o for o in obs if o["id"] not in ids]
+    return obs
